@@ -198,6 +198,11 @@ def _layout(case):
                         a2, _ = r.concat_inverse(geom.Signature(tuple(sizes.items())), axis=ax)
                         if set(a2.keys()) != set(a.keys()) or any(not np.array_equal(np.asarray(a2[k]), np.asarray(a[k])) for k in a.keys()):
                             bad("C13/concat/signature-form", "concat_inverse differs between dict and Signature argument")
+                    # a split signature may also list a type with 0 channels (nothing of that type was appended)
+                    zsizes = {kp: sizes.get(kp, 0) for kp in r.keys()}
+                    a3, b3 = r.concat_inverse(zsizes, axis=ax)
+                    if set(a3.keys()) != set(a.keys()) or any(np.asarray(a3[k]).shape != np.asarray(a[k]).shape or not np.array_equal(np.asarray(a3[k]), np.asarray(a[k])) for k in a.keys()) or set(b3.keys()) != set(b.keys()):
+                        bad("C13/concat/zero-size-entry", f"concat_inverse with explicit zero-size entries {zsizes} splits differently than with those types omitted")
                     return a
 
                 ops.append((f"concat[{ax},{which}]", lambda comp=comp, ax=ax: m.concat(comp, axis=ax), inv, f"concat/{which}"))
@@ -313,6 +318,9 @@ def _saveload(case):
         return models.DilResNet(D, in_keys, out_keys, depth=2, num_blocks=1, **kw)
 
     a, b = build(random.PRNGKey(1)), build(random.PRNGKey(2))
+    if case["model"] == "GroupAverage":
+        # same structure, but the template's non-array leaves (flags) differ from the saved model's
+        b = models.GroupAverage(b.model, b.operators, always_average=False, inference=False)
     # perturb every parameter of `a` away from its initial value (zeros/ones must not hide a dropped leaf)
     leaves, treedef = jax.tree_util.tree_flatten(a)
     k = random.PRNGKey(3)
